@@ -685,7 +685,7 @@ func TestVerifStream(t *testing.T) {
 	}
 	out := vNewOut(env, "stream")
 	all := stAllScenarios()
-	reps := int64(2)
+	reps := int64(6)
 	if env.Tier == "thorough" {
 		reps = 40
 	}
